@@ -1,7 +1,7 @@
 (* C14 -- Completion replaces only the word being completed and can always be backed out.
    Property theorems only. Circular mode: Editor.show_candidate is what round i shows,
    Editor.circular_branch what the key read then does ([rec] = the rest of the loop). *)
-From RL Require Import UData LineBuffer Undo Editor EditorRun UndoProofs CompleteProofs.
+From RL Require Import UData LineBuffer Undo Editor EditorRun UndoProofs CompleteProofs CompleteLoop.
 
 (* round i < n: only the span between the reported start and the cursor is rewritten -- the text before
    (l) and after (r) is intact, the cursor is after the candidate *)
@@ -110,6 +110,21 @@ Theorem C14_list_span_keeps :
   list_span_step U cfg start cands s = EOk tt s.
 Proof. exact list_span_keeps. Qed.
 Print Assumptions C14_list_span_keeps.
+
+(* THE WHOLE LOOP of circular completion. The line was l ++ w ++ r with the cursor after w when Tab was pressed, the completer
+   reported the start of w. For every sequence of keys read inside the loop (any number of Tabs, Shift-Tabs, then whatever
+   ends it): the stored history is untouched; an abort leaves exactly the original line and cursor; any other ending leaves
+   l ++ y ++ r with the cursor after y, where y is one of the candidates offered or w itself -- l and r are never touched *)
+Theorem C14_whole_completion_loop :
+  forall (U : UData) (cfg : config) (l w r : str) (cands : list str) (mark fuel i : nat) (s : est) (x : str) res (s' : est),
+  span_holds l r s x ->
+  complete_circular U cfg fuel (blen l) cands (l ++ w ++ r, blen l + blen w) mark i s = EOk res s' ->
+  e_hist s' = e_hist s
+  /\ (res = None -> buf (e_line s') = l ++ w ++ r /\ pos (e_line s') = blen l + blen w)
+  /\ (forall c, res = Some c ->
+      exists y, offered w cands y /\ buf (e_line s') = l ++ y ++ r /\ pos (e_line s') = blen l + blen y).
+Proof. exact circular_result. Qed.
+Print Assumptions C14_whole_completion_loop.
 
 (* non-vacuity: "cd fo| | wc", candidates foobar, foobaz: Tab Tab shows foobaz in place; Enter keeps it *)
 Example C14_example :
